@@ -281,6 +281,12 @@ class Geometry(DaeObject):
         elif 'name' in self.xmlnode.attrib:
             del self.xmlnode.attrib['name']
 
+        double_sided_node = self.xmlnode.find('.//%s//%s' % (tag('extra'), tag('double_sided')))
+        if double_sided_node is not None:
+            double_sided_node.text = "1" if self.double_sided else "0"
+        elif self.double_sided:
+            self.xmlnode.append(E.extra(E.technique(E.double_sided("1"), profile='GOOGLEEARTH')))
+
         for prim in self.primitives:
             if isinstance(prim, triangleset.TriangleSet) and prim.xmlnode.tag != tag('triangles'):
                 prim._recreateXmlNode()
